@@ -862,3 +862,61 @@ func resultSites(g *eng.Graph, info *types.Info, body ast.Node) []resultSite {
 	}
 	return out
 }
+
+// paramLike returns the parameter of sig whose type satisfies match when exactly one does, otherwise the parameter at
+// the reference position idx (nil when out of range): rules name a parameter by what it is, so that reordering the
+// parameters of a function does not change which one they look at.
+func paramLike(sig *types.Signature, idx int, match func(types.Type) bool) *types.Var {
+	var found *types.Var
+	n := 0
+	for i := 0; i < sig.Params().Len(); i++ {
+		if match(sig.Params().At(i).Type()) {
+			found = sig.Params().At(i)
+			n++
+		}
+	}
+	if n == 1 {
+		return found
+	}
+	if idx < sig.Params().Len() {
+		return sig.Params().At(idx)
+	}
+	return nil
+}
+
+// argLike is paramLike for the arguments of a call.
+func argLike(info *types.Info, call *ast.CallExpr, idx int, match func(types.Type) bool) ast.Expr {
+	var found ast.Expr
+	n := 0
+	for _, a := range call.Args {
+		if tv, ok := info.Types[a]; ok && tv.Type != nil && match(tv.Type) {
+			found = a
+			n++
+		}
+	}
+	if n == 1 {
+		return found
+	}
+	if idx < len(call.Args) {
+		return call.Args[idx]
+	}
+	return nil
+}
+
+func typeNamed(pkgSuffix, name string) func(types.Type) bool {
+	return func(t types.Type) bool {
+		if ptr, ok := t.(*types.Pointer); ok {
+			t = ptr.Elem()
+		}
+		n, ok := t.(*types.Named)
+		return ok && n.Obj().Name() == name && n.Obj().Pkg() != nil && strings.HasSuffix(n.Obj().Pkg().Path(), pkgSuffix)
+	}
+}
+
+func sliceOfNamed(pkgSuffix, name string) func(types.Type) bool {
+	el := typeNamed(pkgSuffix, name)
+	return func(t types.Type) bool {
+		s, ok := t.Underlying().(*types.Slice)
+		return ok && el(s.Elem())
+	}
+}
